@@ -121,6 +121,8 @@ def compatible_fmts(quads, sink):
             continue
         if any(q[1] == "i30" for q in quads) and fmt not in N3_FAMILY:
             continue
+        if any(q[1][0] in "nr" for q in quads) and fmt != "json-ld":
+            continue
         if f["default"] and fmt in D.NO_DEFAULT:
             continue
         if sink == "graph" and (fmt not in D.TRIPLE_FMTS or f["named"]):
@@ -133,7 +135,7 @@ def compatible_fmts(quads, sink):
 
 def _gen_style(rng):
     return {k: rng.random() < 0.5 for k in ("group", "prefix", "sparqlprefix", "short", "anonstyle", "graphkw",
-                                            "bracedefault", "bytes", "pub", "crlf", "comment", "stream", "nocoll")}
+                                            "bracedefault", "bytes", "pub", "crlf", "comment", "stream", "nocoll", "gen", "defaults")}
 
 
 def _gen_doc(rng, sink, idx, pool, earlier, init_bn):
@@ -169,7 +171,11 @@ def _gen_doc(rng, sink, idx, pool, earlier, init_bn):
             return "i%d" % rng.choice(OBJ_I)
         return "l%d" % rng.choice(list(LITS))
 
+    genrdf = fmt == "json-ld" and not counting and rng.random() < 0.4   # JSON-LD read with generalized_rdf=True
+
     def pred():
+        if genrdf and rng.random() < 0.5:
+            return lab()            # a blank node as property key; the same labels are subjects / objects / graph names
         return "i%d" % rng.choice(PRED_I)
 
     def gname():
@@ -369,17 +375,28 @@ FORMAT_NAME = {"nt": "nt", "nquads": "nquads", "turtle": "turtle", "n3": "n3", "
                "trix": "trix", "json-ld": "json-ld", "hext": "hext"}
 
 
-def _parse(target, kind, into_term, fmt, text, style):
+def _parse(target, kind, into_term, fmt, text, style, bnode_preds=False):
     g = _graph_of(target, kind, into_term)
     kw = {"format": FORMAT_NAME[fmt]}
     if style.get("pub"):
         kw["publicID"] = "http://e/doc"
+    if fmt == "json-ld" and (bnode_preds or style.get("gen")):
+        kw["generalized_rdf"] = True         # blank nodes allowed in predicate position ("_:p": … property keys)
+    if style.get("defaults"):                # the label-handling options spelled out with their default values
+        if fmt in ("xml", "trix"):
+            kw["preserve_bnode_ids"] = False
+        elif fmt in ("nt", "nquads", "hext", "json-ld"):
+            kw["skolemize"] = False
     if style.get("stream"):
         g.parse(io.BytesIO(text.encode("utf-8")), **kw)
     elif style.get("bytes"):
         g.parse(data=text.encode("utf-8"), **kw)
     else:
         g.parse(data=text, **kw)
+
+
+def _bnode_preds(doc):
+    return any(q[1][0] in "nr" for q in doc["quads"])
 
 
 def _resolvable(case, idx, term):
@@ -467,7 +484,7 @@ def _predicted_ids(case, pi):
     text = D.write(doc["fmt"], cq, doc["style"])
     scratch = Graph()
     try:
-        _parse(scratch, "graph", None, doc["fmt"], text, doc["style"])
+        _parse(scratch, "graph", None, doc["fmt"], text, doc["style"], _bnode_preds(doc))
     except Exception:
         pass
     later = sum(1 for d in case["docs"][:pi] if d["fmt"] in ("turtle", "n3", "trig"))
@@ -537,7 +554,7 @@ def run_impl(case):
         before, _ = _quads_of(target)
         err = "ok"
         try:
-            _parse(target, kind, into, fmt, text, doc["style"])
+            _parse(target, kind, into, fmt, text, doc["style"], _bnode_preds(doc))
         except core.CaseTimeout:
             raise
         except Exception as e:  # a valid document must parse
@@ -581,7 +598,7 @@ def run_impl(case):
         for _ in range(2):
             t = _mk_sink(kind)
             try:
-                _parse(t, kind, None, doc["fmt"], text, doc["style"])
+                _parse(t, kind, None, doc["fmt"], text, doc["style"], _bnode_preds(doc))
             except Exception as e:
                 viol.append(f"parse-error: fresh target rejected document {fi}: {type(e).__name__}")
             res.append(_quads_of(t)[0])
@@ -610,6 +627,11 @@ def run_impl(case):
             stats["digit_label_with_anon_docs"] = stats.get("digit_label_with_anon_docs", 0) + 1
         if any(q[1] == "i30" for q in d["quads"]):
             stats["collection_docs"] = stats.get("collection_docs", 0) + 1
+        if _bnode_preds(d):
+            stats["bnode_predicate_docs"] = stats.get("bnode_predicate_docs", 0) + 1
+            pl = {q[1] for q in d["quads"] if q[1][0] == "n"}
+            if pl & {t for q in d["quads"] for t in (q[0], q[2], q[3])}:
+                stats["bnode_predicate_also_node"] = stats.get("bnode_predicate_also_node", 0) + 1
     stats["same_doc_again"] = sum(1 for j, d in enumerate(case["docs"]) if any(d["quads"] == e["quads"] for e in case["docs"][:j]))
     return {"obs": obs, "viol": viol, "nontrivial": bool(shared),
             "key": repr((kind, case["init"], [(d["fmt"], d["quads"], d["into"]) for d in case["docs"]])),
